@@ -113,6 +113,11 @@ class FastHierarchyAnalyzer(HierarchyAnalyzerBase):
                 if not isinstance(choice_node, SelectionChoiceNode):
                     break
 
+                # An infeasible graph may have lost choices that are still listed as active: stop here, the caller tries
+                # the next design vector
+                if choice_node not in graph.graph.nodes and not graph.feasible:
+                    return tuple(taken_sel_opt), graph
+
                 # Get assigned option
                 i_choice = i_sel_choice_nodes[choice_node]
                 i_opt = opt_idx_try[i_choice]
